@@ -106,6 +106,7 @@ def c04(tier: str) -> list[dict[str, Any]]:
         plan("G1 retries with explicit max_concurrent_tries=0 (serial)", trav.menu("G1", params={"max_tries": "2", "max_concurrent_tries": "0", "stop_status": "pass"}, label="G1-mct0"), m, K=1, statuses=["PASS", "FAIL"], max_nonpass=1, pool_fixed={"install": ["shared"]}),
         plan("virtual time: G1 2 workers, durations symbolic below test_timeout=1 (creation and chain)", trav.menu("G1", params={"test_timeout": "1"}, label="G1-timed"), m + [M.c03], timed=True, statuses=["PASS"],
              bounds={"time": "every execution lasts a symbolic real duration in (0, test_timeout); back-off sleeps as computed by the code; event order decided by the solver, long executions first"}),
+        plan("virtual time: G1 2 workers, max_tries=0 (one try, as max_tries=1)", trav.menu("G1", params={"test_timeout": "1", "max_tries": "0"}, label="G1-timed-tries0"), m + [M.c03], timed=True, statuses=["PASS"], pool_fixed={"install": ["shared"], "customize": ["shared"]}),
         plan("virtual time: G1 2 workers, setup present (2 executions)", trav.menu("G1", params={"test_timeout": "1"}, label="G1-timed-short"), m + [M.c03], timed=True, statuses=["PASS"], pool_fixed={"install": ["shared"], "customize": ["shared"]}),
     ]
     if tier == "thorough":
@@ -123,6 +124,11 @@ def c04(tier: str) -> list[dict[str, Any]]:
 
 def _previous(run: Any) -> None:
     trav.setup_previous(run)
+
+
+def _previous_passed(run: Any) -> None:
+    """Every test has a result in the replayed job (PASS or FAIL, on a solver-chosen worker)."""
+    trav.setup_previous(run, statuses=("PASS", "FAIL"))
 
 
 def _extra_vm_state(run: Any) -> None:
@@ -186,6 +192,7 @@ def c08(tier: str) -> list[dict[str, Any]]:
         plan("G2 eager with a replayed previous job (solver-chosen results and producing worker)", trav.menu("G2", lazy=False, params={"replay": "job1"}, label="G2-replay"), m, K=1, statuses=["PASS"], pool_bits="all", pool_states=["customize"], pool_fixed={"install": ["shared"]}, setup=_previous),
         plan("G1 a retried dependant learns about a producer that finished between its tries", trav.menu("G1", params={"max_tries": "3", "rerun_status": "fail"}, label="G1-rerun-fail"), m, K=1, statuses=["PASS", "FAIL"], max_nonpass=2, pool_fixed=DEEP),
         plan("G1 runtime slots: a container and the host process", trav.menu("G1", params={"slots": "101 "}, label="G1-slots"), m, K=1, statuses=["PASS"], pool_fixed=DEEP),
+        plan("G1 eager with a replayed previous job, the rerun of a replayed passing setup fails slowly", trav.menu("G1", lazy=False, params={"replay": "job1"}, label="G1-replay-slow-fail"), m, K=1, statuses=["FAIL", "PASS"], max_nonpass=1, elapsed_options=["2", "1"], pool_fixed=DEEP, setup=_previous_passed),
         plan("G1 retries with varying recorded durations (PASS may be downgraded to WARN)", trav.menu("G1", params={"max_tries": "2"}, label="G1-elapsed"), m, K=1, statuses=["PASS"], elapsed_options=["1", "2"], pool_fixed={"install": ["shared"]}),
     ]
     if tier == "thorough":
